@@ -140,6 +140,46 @@ var headerKeys = []string{"Content-Type", "content-type", "CONTENT-TYPE", "X-Req
 var headerVals = []string{"text/plain", "application/json; charset=utf-8", "8080", "Bearer abc:def", "a:b:c", "x", "a b  c", "\"quoted\"", "ünï", "v=1;w=2", "http://h:80/p?q=1"}
 var HeaderSpaces = []string{"", " ", "  ", "\t", " \t ", " ", " "}
 
+// SpecialHeaderNames: names that net/http or vegeta treat specially somewhere (written by the
+// transport itself, excluded from the generic header write, set by the attacker), plus names with
+// digits, underscores and dots. A -header flag must store every one of them exactly as typed.
+var SpecialHeaderNames = []string{"host", "user-agent", "content-length", "transfer-encoding", "trailer", "connection", "accept-encoding",
+	"content-type", "authorization", "cookie", "x-vegeta-seq", "x-vegeta-attack", "expect", "te", "upgrade", "date", "accept", "referer",
+	"x-b3-traceid", "x_under_score", "x.dotted.name", "x-1", "x-amz-meta-1a", "etag", "www-authenticate", "content-md5"}
+
+// CaseVariants: the spellings of a header name that differ only by case.
+func CaseVariants(name string) []string {
+	lower := strings.ToLower(name)
+	upper := strings.ToUpper(name)
+	canon := []byte(lower)
+	up := true
+	for i, c := range canon {
+		if up && c >= 'a' && c <= 'z' {
+			canon[i] = c - 32
+		}
+		up = c == '-'
+	}
+	alt := []byte(lower)
+	for i, c := range alt {
+		if i%2 == 1 && c >= 'a' && c <= 'z' {
+			alt[i] = c - 32
+		}
+	}
+	firstLower := []byte(string(canon))
+	if len(firstLower) > 0 && firstLower[0] >= 'A' && firstLower[0] <= 'Z' {
+		firstLower[0] += 32
+	}
+	out := []string{}
+	seen := map[string]bool{}
+	for _, v := range []string{lower, upper, string(canon), string(alt), string(firstLower)} {
+		if !seen[v] {
+			seen[v] = true
+			out = append(out, v)
+		}
+	}
+	return out
+}
+
 // HeaderMalformed: values that are not "Key: value" with a non-empty key and value.
 var HeaderMalformed = []string{"", ":", " : ", "novalue", "Key", "Key:", "Key:   ", ":value", "  :value", "Key :\t", "\u00a0:\u00a0", "\u00a0:\u2003", "Key:\u00a0"}
 
@@ -150,6 +190,8 @@ func Header(r *kit.Rng) HeaderCase {
 	k, v := r.PickStr(headerKeys), r.PickStr(headerVals)
 	if r.Chance(0.2) {
 		k = "K" + strconv.FormatInt(r.Range(0, 20), 10)
+	} else if r.Chance(0.45) {
+		k = r.PickStr(CaseVariants(r.PickStr(SpecialHeaderNames)))
 	}
 	if r.Chance(0.2) {
 		v = strconv.FormatInt(r.Range(0, 1000), 10)
